@@ -1,4 +1,5 @@
-import Py4hwV.Proofs.C19Fun
+import Py4hwV.Proofs.C19Walk
+import Py4hwV.Emit.Live
 /-
   C19 — Verilog generation is a pure, repeatable function of the circuit.
 
@@ -414,6 +415,554 @@ theorem submodule_context_free_direct (w₁ w₂ : World) (g₁ g₂ : Nat) (gen
   rw [public_getVerilog_spec w₁ g₁ gen₁ (some o) ni f hg₁, public_getVerilog_spec w₂ g₂ gen₂ (some o) ni f hg₂, hd]
   rfl
 
+/-! ## hier_members, full statement: the exact, ordered, de-duplicated pre-order list -/
+
+/-- the requested object's own module: '' when its structure name is in the list, else the reference text -/
+def ownSpec (d : Design) (o : ObjId) (obj : ObjD) (ni : Bool) (f : Option String) (cr : List String) :
+    Except Err (List Out × List String) :=
+  if cr.contains (nameOf obj ni f) then .ok ([], cr)
+  else match modText d o ni f with
+    | .error e => .error e
+    | .ok out => .ok ([out], cr ++ out.adds (nameOf obj ni f))
+
+/-- one child of the walk: inlinable children are skipped -/
+def kidSpec (d : Design) (rec : ObjId → List String → Except Err (List Out × List String)) (c : ObjId) (cr : List String) :
+    Except Err (List Out × List String) :=
+  match d.obj? c with
+  | .error e => .error e
+  | .ok child => if child.inlinable then .ok ([], cr) else rec c cr
+
+/-- `_getVerilogForHierarchy` as a pure function: the only state is the CONTENT of the created-structures list.  Every
+    module is the reference text `modText` (brand-new process, no cache) of the object reached. -/
+def hierSpec (d : Design) : Nat → ObjId → Bool → Option String → List String → Except Err (List Out × List String)
+  | 0, _, _, _, _ => .error .fuel
+  | fuel + 1, o, ni, f, cr =>
+    match d.obj? o with
+    | .error e => .error e
+    | .ok obj =>
+      match ownSpec d o obj ni f cr with
+      | .error e => .error e
+      | .ok (own, cr1) =>
+        match foldSpec (kidSpec d fun c cr' => hierSpec d fuel c false none cr') obj.children cr1 with
+        | .error e => .error e
+        | .ok (rest, cr2) => .ok (own ++ rest, cr2)
+
+theorem modText_eq (o : ObjId) (obj : ObjD) (ni : Bool) (f : Option String) (ho : d.obj? o = .ok obj) :
+    modText d o ni f = (emitModule d false o obj (nameOf obj ni f) {}).1 := by
+  unfold modText
+  rw [getVerilogI_eq, ho]
+  have : ((({} : S).created).contains (nameOf obj ni f)) = false := rfl
+  simp only [this, Bool.false_eq_true, if_false]
+
+/-- the Python loop body of `_getVerilogForHierarchy` over one child -/
+def kidI (d : Design) (uc : Bool) (n : Nat) (c : ObjId) : M (List Out) := do
+  let child ← liftE (d.obj? c)
+  if child.inlinable then pure [] else hierI d uc n c false none
+
+theorem hierI_succ (uc : Bool) (n : Nat) (o : ObjId) (ni : Bool) (f : Option String) :
+    hierI d uc (n + 1) o ni f = (do
+      let own ← getVerilogI d uc o ni f
+      let obj ← liftE (d.obj? o)
+      let parts ← mapMM (kidI d uc n) obj.children
+      pure ((if own = .empty then [] else [own]) ++ parts.flatten)) := rfl
+
+theorem kidI_coh (uc : Bool) (n : Nat) (c : ObjId) (t : S) (ht : Coh d t.cache) : Coh d (kidI d uc n c t).2.cache := by
+  have := (SimC.bind (d := d) (Sim.liftE (d.obj? c)).toC (fun child =>
+    (show SimC d (if child.inlinable = true then (pure [] : M (List Out)) else hierI d uc n c false none)
+                 (if child.inlinable = true then (pure [] : M (List Out)) else hierI d uc n c false none) from by
+      split
+      · exact (Sim.pure _).toC
+      · exact hierI_sim uc uc n c false none))) t t ht ht rfl
+  exact this.2.1
+
+/-- hier_exact: result AND final list content of `_getVerilogForHierarchy`, from any coherent state, with or without
+    cache, are the pure specification's (exceptions included: same exception at the same point of the walk) -/
+theorem hier_exact (uc : Bool) (fuel : Nat) : ∀ (o : ObjId) (ni : Bool) (f : Option String) (s : S), Coh d s.cache →
+    obs (hierI d uc fuel o ni f s) = hierSpec d fuel o ni f s.created := by
+  induction fuel with
+  | zero => intro o ni f s _; rfl
+  | succ n ih =>
+    intro o ni f s hc
+    have hcoh := (getVerilogI_sim (d := d) uc uc o ni f s s hc hc rfl).2.1
+    rw [hierI_succ]
+    unfold hierSpec
+    rw [bind_def]
+    rw [getVerilogI_eq] at hcoh ⊢
+    cases ho : d.obj? o with
+    | error e => rfl
+    | ok obj =>
+      rw [ho] at hcoh
+      simp only at hcoh ⊢
+      -- the children, from any coherent state
+      have kids : ∀ (s1 : S), Coh d s1.cache →
+          obsF (mapMM (kidI d uc n) obj.children s1) =
+            foldSpec (kidSpec d fun c cr' => hierSpec d n c false none cr') obj.children s1.created := by
+        intro s1 h1
+        refine mapMM_obs (d := d) _ _ ?_ obj.children s1 h1
+        intro c t ht
+        refine ⟨?_, kidI_coh uc n c t ht⟩
+        unfold kidI kidSpec
+        rw [bind_def]
+        simp only [liftE]
+        cases d.obj? c with
+        | error e => rfl
+        | ok child =>
+          simp only
+          split
+          · rfl
+          · exact ih c false none t ht
+      unfold ownSpec
+      by_cases hb : s.created.contains (nameOf obj ni f) = true
+      · -- structure already created: '' and the list untouched
+        simp only [hb, if_true] at hcoh ⊢
+        rw [bind_def]
+        simp only [liftE]
+        rw [bind_def]
+        have k := kids s hc
+        rw [← k]
+        generalize mapMM (kidI d uc n) obj.children s = q
+        obtain ⟨r, s2⟩ := q
+        cases r with
+        | error e => rfl
+        | ok parts => simp [obsF, obs, pure_def]
+      · simp only [hb, Bool.false_eq_true, if_false] at hcoh ⊢
+        have hm := (emitModule_sim (d := d) uc false o obj (nameOf obj ni f) s {} hc (coh_clear d)).1
+        have hfin := emitModule_fin (d := d) uc o obj (nameOf obj ni f) s
+        rw [modText_eq o obj ni f ho, ← hm]
+        generalize emitModule d uc o obj (nameOf obj ni f) s = p at hcoh hfin ⊢
+        obtain ⟨r, s1⟩ := p
+        cases r with
+        | error e => rfl
+        | ok own =>
+          obtain ⟨hcr, hne⟩ := hfin own rfl
+          simp only at hcr hcoh ⊢
+          rw [bind_def]
+          simp only [liftE]
+          rw [bind_def]
+          have k := kids s1 hcoh
+          rw [hcr] at k
+          rw [← k]
+          generalize mapMM (kidI d uc n) obj.children s1 = q
+          obtain ⟨r2, s2⟩ := q
+          cases r2 with
+          | error e => rfl
+          | ok parts => simp [obsF, obs, pure_def, hne]
+
+/-- the non-inlinable objects strictly below `o`, in the order of the walk (pre-order, children in insertion order; an
+    inlinable child is skipped together with everything below it) -/
+def collect {γ : Type} (g : γ → Except Err (List ObjId)) : List γ → Except Err (List ObjId)
+  | [] => .ok []
+  | a :: t =>
+    match g a with
+    | .error e => .error e
+    | .ok x => match collect g t with
+      | .error e => .error e
+      | .ok y => .ok (x ++ y)
+
+def kidDesc (d : Design) (rec : ObjId → Except Err (List ObjId)) (c : ObjId) : Except Err (List ObjId) :=
+  match d.obj? c with
+  | .error e => .error e
+  | .ok child => if child.inlinable then .ok [] else
+    match rec c with
+    | .error e => .error e
+    | .ok l => .ok (c :: l)
+
+def descendants (d : Design) : Nat → ObjId → Except Err (List ObjId)
+  | 0, _ => .error .fuel
+  | fuel + 1, o =>
+    match d.obj? o with
+    | .error e => .error e
+    | .ok obj => collect (kidDesc d (descendants d fuel)) obj.children
+
+/-- one request of the walk: (object, noInstanceNumber, forceName) -/
+abbrev Req := ObjId × Bool × Option String
+
+/-- every object below the requested one is generated with (noInstanceNumber = False, forceName = None) -/
+def subs (l : List ObjId) : List Req := l.map fun c => (c, false, none)
+
+theorem subs_cons (c : ObjId) (l : List ObjId) : subs (c :: l) = (c, false, none) :: subs l := rfl
+theorem subs_append (a b : List ObjId) : subs (a ++ b) = subs a ++ subs b := List.map_append
+
+/-- dedupByName: go through the requests in order; a request whose structure name is already in the list contributes
+    nothing; otherwise it contributes THE reference text of its object and (for a module) its name joins the list -/
+def dedupWalk (d : Design) : List Req → List String → Except Err (List Out × List String)
+  | [], cr => .ok ([], cr)
+  | (o, ni, f) :: t, cr =>
+    match d.obj? o with
+    | .error e => .error e
+    | .ok obj =>
+      if cr.contains (nameOf obj ni f) then dedupWalk d t cr
+      else match modText d o ni f with
+        | .error e => .error e
+        | .ok out =>
+          match dedupWalk d t (cr ++ out.adds (nameOf obj ni f)) with
+          | .error e => .error e
+          | .ok (r, cr') => .ok (out :: r, cr')
+
+/-- sequencing of two walks -/
+def andThen (a : Except Err (List Out × List String)) (k : List String → Except Err (List Out × List String)) :
+    Except Err (List Out × List String) :=
+  match a with
+  | .error e => .error e
+  | .ok (x, cr1) => match k cr1 with
+    | .error e => .error e
+    | .ok (y, cr2) => .ok (x ++ y, cr2)
+
+theorem dedupWalk_append (l₁ l₂ : List Req) : ∀ (cr : List String),
+    dedupWalk d (l₁ ++ l₂) cr = andThen (dedupWalk d l₁ cr) (dedupWalk d l₂) := by
+  induction l₁ with
+  | nil =>
+    intro cr
+    simp only [List.nil_append, dedupWalk, andThen]
+    cases dedupWalk d l₂ cr with
+    | error e => rfl
+    | ok p => rfl
+  | cons a t ih =>
+    intro cr
+    obtain ⟨o, ni, f⟩ := a
+    simp only [List.cons_append, dedupWalk]
+    cases d.obj? o with
+    | error e => rfl
+    | ok obj =>
+      simp only
+      split
+      · exact ih cr
+      · cases modText d o ni f with
+        | error e => rfl
+        | ok out =>
+          simp only
+          rw [ih]
+          cases dedupWalk d t (cr ++ out.adds (nameOf obj ni f)) with
+          | error e => rfl
+          | ok p =>
+            simp only [andThen]
+            cases dedupWalk d l₂ p.2 with
+            | error e => rfl
+            | ok q => rfl
+
+theorem foldSpec_cons {γ : Type} (sp : γ → List String → Except Err (List Out × List String)) (a : γ) (t : List γ)
+    (cr : List String) : foldSpec sp (a :: t) cr = andThen (sp a cr) (foldSpec sp t) := by
+  simp only [foldSpec, andThen]
+  rfl
+
+theorem kids_walk (n : Nat)
+    (ih : ∀ (o : ObjId) (ni : Bool) (f : Option String) (cr : List String) (l : List ObjId),
+      descendants d n o = .ok l → hierSpec d n o ni f cr = dedupWalk d ((o, ni, f) :: subs l) cr) :
+    ∀ (ch l : List ObjId) (cr1 : List String), collect (kidDesc d (descendants d n)) ch = .ok l →
+      foldSpec (kidSpec d fun c cr' => hierSpec d n c false none cr') ch cr1 = dedupWalk d (subs l) cr1 := by
+  intro ch
+  induction ch with
+  | nil => intro l cr1 hl; simp only [collect] at hl; cases hl; rfl
+  | cons c t iht =>
+    intro l cr1 hl
+    simp only [collect] at hl
+    rw [foldSpec_cons]
+    cases hk : kidDesc d (descendants d n) c with
+    | error e => simp [hk] at hl
+    | ok x =>
+      cases ht : collect (kidDesc d (descendants d n)) t with
+      | error e => simp [hk, ht] at hl
+      | ok y =>
+        simp only [hk, ht] at hl
+        cases hl
+        rw [subs_append, dedupWalk_append]
+        have e1 : kidSpec d (fun c cr' => hierSpec d n c false none cr') c cr1 = dedupWalk d (subs x) cr1 := by
+          unfold kidDesc at hk
+          unfold kidSpec
+          cases hc : d.obj? c with
+          | error e => simp [hc] at hk
+          | ok child =>
+            simp only [hc] at hk ⊢
+            by_cases hi : child.inlinable = true
+            · simp only [hi, if_true] at hk ⊢
+              cases hk
+              rfl
+            · simp only [hi] at hk ⊢
+              cases hdc : descendants d n c with
+              | error e => simp [hdc] at hk
+              | ok lc =>
+                simp only [hdc] at hk
+                cases hk
+                simp only [Bool.false_eq_true, if_false]
+                exact ih c false none cr1 lc hdc
+        rw [e1]
+        have e2 : foldSpec (kidSpec d fun c cr' => hierSpec d n c false none cr') t = dedupWalk d (subs y) := by
+          funext cr2
+          exact iht y cr2 ht
+        rw [e2]
+
+/-- on a well-formed tree (`descendants` succeeds) the specification IS the de-duplicating walk over the pre-order list -/
+theorem hierSpec_eq_walk (fuel : Nat) : ∀ (o : ObjId) (ni : Bool) (f : Option String) (cr : List String) (l : List ObjId),
+    descendants d fuel o = .ok l → hierSpec d fuel o ni f cr = dedupWalk d ((o, ni, f) :: subs l) cr := by
+  induction fuel with
+  | zero => intro o ni f cr l h; simp [descendants] at h
+  | succ n ih =>
+    intro o ni f cr l h
+    unfold descendants at h
+    unfold hierSpec
+    simp only [dedupWalk]
+    cases ho : d.obj? o with
+    | error e => simp [ho] at h
+    | ok obj =>
+      simp only [ho] at h
+      simp only
+      unfold ownSpec
+      by_cases hb : cr.contains (nameOf obj ni f) = true
+      · simp only [hb, if_true]
+        rw [kids_walk n ih obj.children l cr h]
+        cases dedupWalk d (subs l) cr with
+        | error e => rfl
+        | ok p => simp
+      · simp only [hb, Bool.false_eq_true, if_false]
+        cases modText d o ni f with
+        | error e => rfl
+        | ok out =>
+          simp only
+          rw [kids_walk n ih obj.children l _ h]
+          cases dedupWalk d (subs l) (cr ++ out.adds (nameOf obj ni f)) with
+          | error e => rfl
+          | ok p => simp
+
+/-- well-formedness is not an extra assumption: whenever the walk itself succeeds, `descendants` does -/
+theorem descendants_of_ok (fuel : Nat) : ∀ (o : ObjId) (ni : Bool) (f : Option String) (cr : List String)
+    (r : List Out × List String), hierSpec d fuel o ni f cr = .ok r → ∃ l, descendants d fuel o = .ok l := by
+  induction fuel with
+  | zero => intro o ni f cr r h; simp [hierSpec] at h
+  | succ n ih =>
+    intro o ni f cr r h
+    unfold hierSpec at h
+    unfold descendants
+    cases ho : d.obj? o with
+    | error e => simp [ho] at h
+    | ok obj =>
+      simp only [ho] at h ⊢
+      have kids : ∀ (ch : List ObjId) (cr1 : List String) (r : List Out × List String),
+          foldSpec (kidSpec d fun c cr' => hierSpec d n c false none cr') ch cr1 = .ok r →
+          ∃ l, collect (kidDesc d (descendants d n)) ch = .ok l := by
+        intro ch
+        induction ch with
+        | nil => intro _ _ _; exact ⟨[], rfl⟩
+        | cons c t iht =>
+          intro cr1 r hr
+          rw [foldSpec_cons] at hr
+          unfold andThen at hr
+          cases hk : kidSpec d (fun c cr' => hierSpec d n c false none cr') c cr1 with
+          | error e => simp [hk] at hr
+          | ok p =>
+            simp only [hk] at hr
+            cases ht : foldSpec (kidSpec d fun c cr' => hierSpec d n c false none cr') t p.2 with
+            | error e => simp [ht] at hr
+            | ok q =>
+              obtain ⟨y, hy⟩ := iht p.2 q ht
+              have : ∃ x, kidDesc d (descendants d n) c = .ok x := by
+                unfold kidSpec at hk
+                unfold kidDesc
+                cases hc : d.obj? c with
+                | error e => simp [hc] at hk
+                | ok child =>
+                  simp only [hc] at hk ⊢
+                  by_cases hi : child.inlinable = true
+                  · simp [hi]
+                  · simp only [hi, Bool.false_eq_true, if_false] at hk ⊢
+                    obtain ⟨lc, hlc⟩ := ih c false none cr1 p hk
+                    exact ⟨c :: lc, by simp [hlc]⟩
+              obtain ⟨x, hx⟩ := this
+              exact ⟨x ++ y, by simp [collect, hx, hy]⟩
+      cases hown : ownSpec d o obj ni f cr with
+      | error e => simp [hown] at h
+      | ok p =>
+        simp only [hown] at h
+        cases hf : foldSpec (kidSpec d fun c cr' => hierSpec d n c false none cr') obj.children p.2 with
+        | error e => simp [hf] at h
+        | ok q => exact kids obj.children p.2 q hf
+
+/-- **hier_members, full statement.**  Whenever `_getVerilogForHierarchy(o)` succeeds on a well-formed tree — from any
+    coherent state, with or without cache, whatever the list held at entry — its text is EXACTLY the de-duplicating walk
+    over the pre-order list `o :: descendants`: in that order, the requested object with the caller's naming arguments,
+    every other object with (False, None), each one THE reference text of its object, a name emitted at most once; and the
+    list ends up with exactly the names of the modules written appended. -/
+theorem hier_members_full (uc : Bool) (fuel : Nat) (o : ObjId) (ni : Bool) (f : Option String) (s : S) (outs : List Out)
+    (l : List ObjId) (hc : Coh d s.cache) (hl : descendants d fuel o = .ok l)
+    (h : (hierI d uc fuel o ni f s).1 = .ok outs) :
+    dedupWalk d ((o, ni, f) :: subs l) s.created = .ok (outs, (hierI d uc fuel o ni f s).2.created) := by
+  rw [← hierSpec_eq_walk fuel o ni f s.created l hl, ← hier_exact uc fuel o ni f s hc]
+  generalize hierI d uc fuel o ni f s = p at h ⊢
+  obtain ⟨r, s'⟩ := p
+  simp only at h
+  subst h
+  rfl
+
+/-- the same without the well-formedness hypothesis: a successful request determines its pre-order list -/
+theorem hier_members_exact (uc : Bool) (fuel : Nat) (o : ObjId) (ni : Bool) (f : Option String) (s : S) (outs : List Out)
+    (hc : Coh d s.cache) (h : (hierI d uc fuel o ni f s).1 = .ok outs) :
+    ∃ l, descendants d fuel o = .ok l ∧
+      dedupWalk d ((o, ni, f) :: subs l) s.created = .ok (outs, (hierI d uc fuel o ni f s).2.created) := by
+  have e := hier_exact (d := d) uc fuel o ni f s hc
+  have : ∃ r, hierSpec d fuel o ni f s.created = .ok r := by
+    rw [← e]
+    generalize hierI d uc fuel o ni f s = p at h
+    obtain ⟨r, s'⟩ := p
+    simp only at h
+    subst h
+    exact ⟨_, rfl⟩
+  obtain ⟨r, hr⟩ := this
+  obtain ⟨l, hl⟩ := descendants_of_ok fuel o ni f s.created r hr
+  exact ⟨l, hl, hier_members_full uc fuel o ni f s outs l hc hl h⟩
+
+/-- the public entry: `getVerilogForHierarchy` without a caller list = the walk from an empty list -/
+theorem public_getHier_full (w : World) (g : Nat) (gen : Gen) (obj : Option ObjId) (ni : Bool) (f : Option String)
+    (outs : List Out) (l : List ObjId) (hg : w.gens[g]? = some gen)
+    (hl : descendants w.d (fuelOf w.d) (obj.getD gen.obj) = .ok l) (h : (getHierPub w g obj ni f none).2 = .ok outs) :
+    ∃ cr, dedupWalk w.d ((obj.getD gen.obj, ni, f) :: subs l) [] = .ok (outs, cr) := by
+  rw [public_getHier_spec w g gen obj ni f hg] at h
+  exact ⟨_, hier_members_full (d := w.d) false (fuelOf w.d) (obj.getD gen.obj) ni f { created := [] } outs l (coh_clear _) hl h⟩
+
+/-- the walk never invents text and never repeats a name: every module of the answer is the reference text of one of the
+    requests, in request order (a sublist) -/
+theorem dedupWalk_sublist : ∀ (reqs : List Req) (cr : List String) (outs : List Out) (cr' : List String),
+    dedupWalk d reqs cr = .ok (outs, cr') →
+    List.Sublist (outs.map Except.ok) (reqs.map fun r => modText d r.1 r.2.1 r.2.2) := by
+  intro reqs
+  induction reqs with
+  | nil => intro cr outs cr' h; simp only [dedupWalk] at h; cases h; exact List.Sublist.slnil
+  | cons a t ih =>
+    intro cr outs cr' h
+    obtain ⟨o, ni, f⟩ := a
+    simp only [dedupWalk] at h
+    cases ho : d.obj? o with
+    | error e => rw [ho] at h; simp at h
+    | ok obj =>
+      rw [ho] at h
+      simp only at h
+      split at h
+      · exact List.Sublist.cons _ (ih cr outs cr' h)
+      · cases hm : modText d o ni f with
+        | error e => rw [hm] at h; simp at h
+        | ok out =>
+          rw [hm] at h
+          simp only at h
+          cases hr : dedupWalk d t (cr ++ out.adds (nameOf obj ni f)) with
+          | error e => rw [hr] at h; simp at h
+          | ok p =>
+            rw [hr] at h
+            simp only at h
+            cases h
+            simp only [List.map_cons, hm]
+            exact List.Sublist.cons_cons _ (ih _ p.1 p.2 hr)
+
+/-! ## the transpiler and the live object: text is a function of structure and constructor-time configuration -/
+
+/-- ExtractInitializers reads the live object only through the constructor-parameter names of `self.x = p` statements -/
+theorem extractInit_frame (lv₁ lv₂ : Live) : ∀ (c : List CtorStmt) (i : Init),
+    (∀ p ∈ argParams c, lv₁ p = lv₂ p) → extractInit lv₁ c i = extractInit lv₂ c i := by
+  intro c
+  induction c with
+  | nil => intro i _; rfl
+  | cons st t ih =>
+    intro i h
+    cases st with
+    | port a v => exact ih _ (fun p hp => h p (by simpa [argParams] using hp))
+    | const a v => exact ih _ (fun p hp => h p (by simpa [argParams] using hp))
+    | arg a q =>
+      have hq : lv₁ q = lv₂ q := h q (by simp [argParams])
+      simp only [extractInit, hq]
+      cases lv₂ q with
+      | none => rfl
+      | some v => exact ih _ (fun p hp => h p (by simp [argParams, hp]))
+
+/-- transpile_live_frame: the replacement of EVERY name occurrence, the declared variables and the exception behaviour are
+    the same for two live states that agree on the constructor-parameter attributes — nothing else of the live object
+    reaches the text (in particular: whether an attribute exists, and what it currently holds) -/
+theorem transpile_live_frame (b : Behav) (lv₁ lv₂ : Live) (h : ∀ p ∈ argParams b.ctor, lv₁ p = lv₂ p) :
+    transpile b lv₁ = transpile b lv₂ := by
+  unfold transpile
+  rw [extractInit_frame lv₁ lv₂ b.ctor {} h]
+
+/-- what simulation does to the attributes of a behavioural object: it can only (re)assign — or create — the attributes
+    its clock()/propagate() source assigns.  ASSUMPTION about Python, explicit here. -/
+def SimFrame (b : Behav) (lv lv' : Live) : Prop := ∀ n, n ∉ stored b.occs → lv' n = lv n
+
+/-- the class of blocks for which generation is independent of the simulation history: no constructor-parameter
+    attribute is assigned by the method (complement = listed finding C19-live-arg-attr) -/
+def NoArgStore (b : Behav) : Prop := ∀ p ∈ argParams b.ctor, p ∉ stored b.occs
+
+instance (b : Behav) : Decidable (NoArgStore b) := by unfold NoArgStore; exact inferInstance
+
+/-- transpile_sim_indep_partial.  FULL statement (false on the unchanged tree, see `transpile_sim_counterexample`):
+      ∀ b lv lv', SimFrame b lv lv' → transpile b lv' = transpile b lv
+    proved under `NoArgStore b`: attributes created or reassigned by clock()/propagate() — whether or not they exist yet,
+    whatever they hold — never reach the text. -/
+theorem transpile_sim_indep_partial (b : Behav) (lv lv' : Live) (hn : NoArgStore b) (hs : SimFrame b lv lv') :
+    transpile b lv' = transpile b lv :=
+  transpile_live_frame b lv' lv fun p hp => hs p (hn p hp)
+
+/-- the listed finding: `Acc(step=3)` whose clock() does `self.total = self.total + self.step; self.step = self.step + 1` -/
+def exAcc : Behav :=
+  { ctor := [.port "a" "a", .port "r" "r", .arg "step" "step", .const "total" 0],
+    occs := [.attr "total" true, .attr "total" false, .attr "step" false, .attr "step" true, .attr "step" false,
+             .wire "r", .attr "total" false] }
+
+def lvAcc (step total : Int) : Live := fun n => if n = "step" then some step else if n = "total" then some total else none
+
+theorem transpile_sim_counterexample :
+    SimFrame exAcc (lvAcc 3 0) (lvAcc 6 12) ∧ transpile exAcc (lvAcc 6 12) ≠ transpile exAcc (lvAcc 3 0) := by
+  constructor
+  · intro n hn
+    have h1 : n ≠ "step" := by intro h; subst h; exact hn (by decide)
+    have h2 : n ≠ "total" := by intro h; subst h; exact hn (by decide)
+    simp [lvAcc, h1, h2]
+  · decide
+
+/-- an edge detector whose `prev` is created by clock() itself and read (guarded) before it is written: same text before
+    the first cycle (attribute absent) and afterwards (attribute present, any value) -/
+def exChg : Behav :=
+  { ctor := [.port "a" "a", .port "r" "r", .const "started" 0, .const "count" 0],
+    occs := [.attr "started" false, .wire "a", .attr "prev" false, .attr "count" true, .attr "count" false,
+             .attr "prev" true, .wire "a", .attr "started" true, .wire "r", .attr "count" false] }
+
+example : NoArgStore exChg := by decide
+example : ¬ NoArgStore exAcc := by decide
+example : transpile exChg (fun _ => none) = transpile exChg (fun n => if n = "prev" then some 1 else some 7) :=
+  transpile_live_frame exChg _ _ (by intro p hp; simp [exChg, argParams] at hp)
+example : transpile exChg (fun _ => none) =
+    .ok [.var "started", .port "a", .var "prev", .var "count", .var "count", .var "prev", .port "a", .var "started",
+         .port "r", .var "count"] ["started", "count", "prev"] := by decide
+
+/-- the generator model with the transpiled text made explicit: `leafText` of every behavioural object is the rendering
+    of `transpile` on its CURRENT live state -/
+def withLive (d : Design) (bs : ObjId → Option Behav) (lv : ObjId → Live) : Design :=
+  { d with objs := d.objs.mapIdx fun i o =>
+      match bs i with
+      | some b => { o with leafText := (transpile b (lv i)).render }
+      | none => o }
+
+/-- simulation steps do not change the design the generator sees (this discharges, for transpiled blocks in
+    `NoArgStore`, the assumption `sim_no_effect` makes about `Op.sim`) -/
+theorem withLive_sim_indep (d : Design) (bs : ObjId → Option Behav) (lv lv' : ObjId → Live)
+    (h : ∀ i b, bs i = some b → NoArgStore b ∧ SimFrame b (lv i) (lv' i)) : withLive d bs lv' = withLive d bs lv := by
+  unfold withLive
+  have : (fun i (o : ObjD) => match bs i with
+      | some b => { o with leafText := (transpile b (lv' i)).render }
+      | none => o) = (fun i (o : ObjD) => match bs i with
+      | some b => { o with leafText := (transpile b (lv i)).render }
+      | none => o) := by
+    funext i o
+    cases hb : bs i with
+    | none => rfl
+    | some b =>
+      obtain ⟨hn, hs⟩ := h i b hb
+      simp only [transpile_sim_indep_partial b (lv i) (lv' i) hn hs]
+  rw [this]
+
+/-- …hence every sequence of generation requests gives the same answers before and after any simulation history, through
+    any generators, in any process state -/
+theorem sim_history_indep (d : Design) (bs : ObjId → Option Behav) (lv lv' : ObjId → Live) (w₁ w₂ : World) (ops : List Op)
+    (h : ∀ i b, bs i = some b → NoArgStore b ∧ SimFrame b (lv i) (lv' i)) (hl : ops.all noList = true)
+    (h₁ : w₁.d = withLive d bs lv) (h₂ : w₂.d = withLive d bs lv') (hg : w₁.gens.map (·.obj) = w₂.gens.map (·.obj)) :
+    (run w₁ ops).2 = (run w₂ ops).2 := by
+  refine gen_state_indep w₁ w₂ ops hl ?_
+  simp only [vis, h₁, h₂, hg, withLive_sim_indep d bs lv lv' h]
+
 /-- non-vacuity: in the example design the hierarchy of the top emits one module, and it is the reference text -/
 example : (hierI exD true (fuelOf exD) 0 true none {}).1 = .ok [match modText exD 0 true none with | .ok o => o | .error _ => .empty] := by
   decide
@@ -421,5 +970,24 @@ example : (run { d := exD } [.newGen 0, .newGen 1, .getVerilog 0 (some 0) false 
         = (run { d := exD } [.newGen 0, .newGen 1, .getVerilog 0 (some 0) false none, .sim, .getVerilog 1 (some 0) false none]).2.getD 4 (.ok []) := by
   decide
 example : Coh exD ({} : Cache) := coh_clear _
+
+/-- non-vacuity of the full statement: two boxes (instance-suffixed names) each holding a block with the SAME structure
+    name: the walk visits five objects in pre-order, writes four modules, the second `Add4` is de-duplicated -/
+def exD2 : Design :=
+  { objs := [ { parent := none, cls := "Top", name := "top", ident := 0, children := [1, 2, 3] },
+              { parent := some 0, cls := "Box", name := "b1", ident := 1, children := [4] },
+              { parent := some 0, cls := "Box", name := "b2", ident := 2, children := [5] },
+              { parent := some 0, cls := "Not", name := "n", ident := 3, propagatable := true, inlinable := true },
+              { parent := some 1, cls := "Add", name := "a", ident := 4, structName := some "Add4", propagatable := true,
+                providesBody := true, leafText := "assign r = a + b;" },
+              { parent := some 2, cls := "Add", name := "a", ident := 5, structName := some "Add4", propagatable := true,
+                providesBody := true, leafText := "assign r = a + b;" } ],
+    wires := [] }
+
+example : (match descendants exD2 (fuelOf exD2) 0 with | .ok l => l | .error _ => []) = [1, 4, 2, 5] := by decide
+example : (hierI exD2 true (fuelOf exD2) 0 true none {}).2.created = ["Top", "Box_ID1", "Add4", "Box_ID2"] := by decide
+example : (match (hierI exD2 true (fuelOf exD2) 0 true none {}).1 with | .ok l => l.length | .error _ => 0) = 4 := by decide
+example : (match dedupWalk exD2 ((0, true, none) :: subs [1, 4, 2, 5]) [] with | .ok (l, _) => l.length | .error _ => 0) = 4 := by
+  decide
 
 end C19
